@@ -33,6 +33,9 @@ use std::collections::{BTreeMap, BTreeSet};
 use std::num::NonZeroU32;
 use std::panic::{catch_unwind, AssertUnwindSafe};
 
+// standard-trait methods over several object instances (track traits): handle ops `d…`
+mod traits;
+
 type Raw = (u32, Option<u32>);
 
 #[derive(Clone, Copy, Debug, PartialEq, Eq, PartialOrd, Ord)]
@@ -352,6 +355,8 @@ where
     dead: bool,
     /// reduced observations (large deques)
     digest: bool,
+    /// further object instances `d0, d1, …` (handle ops, `fam_sorted/traits.rs`)
+    objs: Vec<St<V>>,
 }
 
 impl<V: Convn> Runner<V>
@@ -364,7 +369,7 @@ where
     }
 
     fn new(digest: bool) -> Self {
-        Runner { cur: Self::fresh(), snaps: vec![Self::fresh()], dead: false, digest }
+        Runner { cur: Self::fresh(), snaps: vec![Self::fresh()], dead: false, digest, objs: Vec::new() }
     }
 
     /// Bookkeeping for the preconditions of the property (not part of the observation).
@@ -560,6 +565,9 @@ where
                 if self.dead {
                     return StepOut::obs("dead");
                 }
+                if let Some(so) = self.step_traits(w) {
+                    return so;
+                }
                 match parse_op(w) {
                     Some(op) if op_ok::<V>(&op) => self.run_op(&op, &w.join(" ")),
                     _ => StepOut::bad(),
@@ -604,6 +612,21 @@ impl Exec for SortedExec {
                 Mode::Pair(r) => r.step(w),
                 Mode::Whole(r) => r.step(w),
             },
+        }
+    }
+}
+
+impl SortedExec {
+    fn fresh() -> SortedExec {
+        SortedExec { mode: Mode::Pair(Runner::new(false)) }
+    }
+}
+
+impl crate::unwind::Probe for SortedExec {
+    fn unwind_safe(&self, w: &[&str]) -> bool {
+        match &self.mode {
+            Mode::Pair(r) => r.unwind_safe(w),
+            Mode::Whole(r) => r.unwind_safe(w),
         }
     }
 }
@@ -802,7 +825,7 @@ impl Family for SortedFamily {
     }
 
     fn new_exec(&self) -> Box<dyn Exec> {
-        Box::new(SortedExec { mode: Mode::Pair(Runner::new(false)) })
+        crate::unwind::UnwindExec::boxed(SortedExec::fresh)
     }
 
     /// Both conventions x all op sequences over the 13-symbol alphabet (4 keys):
@@ -824,6 +847,46 @@ impl Family for SortedFamily {
                 let mut rng = Rng::new(0xC16_0000 + 2 * i + whole as u64);
                 let (lo, hi) = if i < 2 { (560, 800) } else { (600, 3000) };
                 cases.push(large_case(&mut rng, whole, lo, hi));
+            }
+        }
+        // standard traits (track traits): source state x destination state x {clone_from onto cur,
+        // clone_from onto a handle, clone, take}; a second round with the trait call made while unwinding
+        for (ci, conv) in ["pair", "whole"].into_iter().enumerate() {
+            for src in 0..traits::NPREP {
+                for dst in 0..traits::NPREP {
+                    for how in 0..4 {
+                        if !thorough && how >= 2 && (src + dst + ci) % 2 == 1 {
+                            continue;
+                        }
+                        cases.push(traits::clone_matrix_case(conv, src, dst, how, false));
+                        if thorough || (src + dst + how + ci) % 4 == 0 {
+                            cases.push(traits::clone_matrix_case(conv, src, dst, how, true));
+                        }
+                    }
+                }
+            }
+        }
+        // every non-panicking op called from a destructor while the thread unwinds: all sequences of 2
+        // symbols after a fixed prefix (a push that would panic is left unwrapped: it ends the case)
+        for conv in ["pair", "whole"] {
+            for a in 0..NSYM {
+                let mut ops = vec![format!("conv {}", conv)];
+                for b in 0..NSYM {
+                    ops.push("unwinding clear".to_string());
+                    let mut set = BTreeSet::new();
+                    for sym in [0usize, 1, 2, 6] {
+                        shadow(&mut set, sym);
+                        ops.push(format!("unwinding {}", symbol(sym)));
+                    }
+                    for sym in [a, b] {
+                        if shadow(&mut set, sym) {
+                            ops.push(format!("unwinding {}", symbol(sym)));
+                        } else {
+                            break;
+                        }
+                    }
+                }
+                cases.push(ops);
             }
         }
         // iterator protocol (track gen3): every script of <= 2 (thorough: 3) non-consuming steps over the
@@ -878,6 +941,12 @@ impl Family for SortedFamily {
         let small_keys = rng.chance(1, 2); // keep keys within the probe range 0..5 for a while
         let mut live: Vec<u32> = Vec::new(); // ascending
         let mut gone: Vec<u32> = Vec::new(); // removed / popped keys (tombstones or not)
+        // track traits: a third of the cases move values between several objects (handle ops; `others` =
+        // the generator's shadows of d0, d1, …), a quarter make some calls while the thread is unwinding
+        let multi = rng.chance(1, 3);
+        let unwinding = rng.chance(1, 4);
+        let mut others: Vec<(Vec<u32>, Vec<u32>)> = Vec::new();
+        let mut nowrap: Vec<usize> = vec![0]; // ops that must not be wrapped in `unwinding`: conv, new, a push that panics
         let mut next_key: u32 = if small_keys { 0 } else { rng.range(0, 50) as u32 };
         let value = |rng: &mut Rng, k: u32| -> u32 { if whole { val(k) } else { rng.range(0, 99) as u32 } };
         if rng.chance(1, 6) {
@@ -895,13 +964,23 @@ impl Family for SortedFamily {
                     live.push(next_key);
                 }
             }
+            nowrap.push(ops.len());
             ops.push(format!("new {}", if items.is_empty() { "-".into() } else { items.join(",") }));
         }
         let push_w = *rng.pick(&[3u64, 5, 7]);
         for _ in 0..nops {
+            if multi && rng.chance(1, 6) {
+                let mut st = vec![(std::mem::take(&mut live), std::mem::take(&mut gone))];
+                st.append(&mut others);
+                ops.push(crate::fam_sdeque::traits::gen_mop(rng, &mut st));
+                others = st.split_off(1);
+                (live, gone) = st.pop().unwrap();
+                continue;
+            }
             if rng.below(10) < push_w {
                 match rng.below(120) {
                     0 => {
+                        nowrap.push(ops.len());
                         // must panic (unless the deque is empty): key <= last
                         let k = match live.last() {
                             Some(&l) => l - rng.below(l.min(3) as u64 + 1) as u32,
@@ -997,6 +1076,16 @@ impl Family for SortedFamily {
             if rng.chance(1, 10) {
                 let de = rng.chance(1, 40);
                 ops.push(format!("iterscript {}", crate::iterscript::gen_script(rng, live.len(), de)));
+            }
+        }
+        if unwinding {
+            for (i, op) in ops.iter_mut().enumerate() {
+                if !nowrap.contains(&i) && !op.starts_with("iterscript") && rng.chance(1, 4) {
+                    *op = format!("unwinding {}", op);
+                }
+            }
+            if rng.chance(1, 4) {
+                ops.push(format!("scoped_panic conv {} ; push 1 {} ; push 2 {} ; pop_first ; dstore 0 ; dclone_from 0", if whole { "whole" } else { "pair" }, val(1), val(2)));
             }
         }
         ops
